@@ -251,7 +251,10 @@ def run_case(case: Dict[str, Any], ctx) -> None:
             ctx.violation("C15:transformed-module-raises-under-no_grad:" + exc_key(e), repr(e), source=src, fmt=fmt_name)
             return
         ctx.count("history:called-under-no_grad")
-        same = len(outs_3) == len(outs_u) and all(bits_equal(a.detach(), b.detach()) for a, b in zip(outs_3, outs_u))
+        # (to 1e-5, not bit for bit: PyTorch itself picks other kernels for e.g. F.linear when its operands do not require grad;
+        # a lost quantisation is a 1e-2 effect)
+        same = len(outs_3) == len(outs_u) and all(
+            float((a.detach() - b.detach()).abs().max()) <= 1e-5 * max(float(b.detach().abs().max()), 1e-30) for a, b in zip(outs_3, outs_u))
         if not same or (has_q and not lossless_pair and not qlog3.calls):
             ctx.violation("C15:no_grad-call-of-the-transformed-module-computes-something-else",
                           f"forward values under torch.no_grad() {'equal' if same else 'differ from'} those with autograd recording; quantise calls under no_grad: {len(qlog3.calls)}",
